@@ -8,6 +8,14 @@ package main
 //   - the dispatch table of `switch c.p.major` in detect: per case value, which configuration
 //     is nil-checked (with an error return), which constructor is called with which
 //     configuration and on which connection; what the default clause does;
+//   - how the PUBLIC object (ProtocolSwitchServerConn) keeps the outcome of a detection: the
+//     shape of conn() (detect runs on every call made while no stack is installed), the fields
+//     of the object that the Read/Write path writes besides `wrapped` (a cached error, a
+//     sync.Once, ...), and that `wrapped` is only ever assigned by the dispatch rows;
+//   - the lock programs of every declared method of ProtocolSwitchServerConn WITH the transport
+//     reads of the header peek (facts_locks.go, C13, does not see `io.ReadFull(c.Conn, ..)`),
+//     and the programs of the calls that get a parked goroutine back: Close and the deadline
+//     setters, declared or promoted from the embedded raw connection;
 //   - the shape of ProtocolDetectConn.Read is *not* abstracted into facts (the model is a
 //     transcription, tied by correspondence); only its AST hash is recorded.
 
@@ -15,13 +23,15 @@ import (
 	"fmt"
 	"go/ast"
 	"go/token"
+	"sort"
 	"strconv"
 	"strings"
 )
 
 func init() {
 	extraFactFns = append(extraFactFns, emitPA)
-	extraHashed["pa"] = append(extraHashed["pa"], "listener.Accept", "NewProtocolSwitchServerConn", "NewListener")
+	extraHashed["pa"] = append(extraHashed["pa"], "listener.Accept", "NewProtocolSwitchServerConn", "NewListener",
+		"ProtocolSwitchServerConn.conn", "ProtocolSwitchServerConn.protected")
 }
 
 func cfgCode(s string) int64 {
@@ -185,4 +195,515 @@ func emitPA(e *emitter, p *pkg) {
 	}
 	e.boolean("unsupportedSentinelTyped", sent)
 	_ = strconv.Itoa
+	emitPASwitchState(e, p)
+	emitPASwitchLocks(e, p)
+}
+
+// ---------------------------------------------------------------------------
+// the public object: what conn()/detect() keep of a detection
+
+const paSwitch = "ProtocolSwitchServerConn"
+
+// paSwitchMethods: declared methods of ProtocolSwitchServerConn, sorted by name.
+func paSwitchMethods(p *pkg) []string {
+	var keys []string
+	for key, fd := range p.funcs {
+		if strings.HasPrefix(key, paSwitch+".") && fd.Body != nil {
+			keys = append(keys, key)
+		}
+	}
+	sort.Strings(keys)
+	return keys
+}
+
+// paStructFields: field name -> source text of its type (embedded fields under their type's last name)
+func paStructFields(p *pkg, typ string) (names []string, types map[string]string) {
+	types = map[string]string{}
+	ts := p.types[typ]
+	if ts == nil {
+		return
+	}
+	st, ok := ts.Type.(*ast.StructType)
+	if !ok {
+		return
+	}
+	for _, f := range st.Fields.List {
+		t := p.src(f.Type)
+		if len(f.Names) == 0 {
+			n := t
+			if i := strings.LastIndex(n, "."); i >= 0 {
+				n = n[i+1:]
+			}
+			n = strings.TrimPrefix(n, "*")
+			names = append(names, n)
+			types[n] = t
+		}
+		for _, nm := range f.Names {
+			names = append(names, nm.Name)
+			types[nm.Name] = t
+		}
+	}
+	return
+}
+
+// paWrappedTest: `X != nil` where X is c.wrapped or a local bound (in init) to c.wrapped / c.protected()
+func paWrappedLocal(p *pkg, init ast.Stmt) string {
+	as, ok := init.(*ast.AssignStmt)
+	if !ok || as.Tok != token.DEFINE || len(as.Lhs) != 1 || len(as.Rhs) != 1 {
+		return ""
+	}
+	r := p.src(as.Rhs[0])
+	if r == "c.wrapped" || r == "c.protected()" || r == "c.ProtectedConn()" {
+		return p.src(as.Lhs[0])
+	}
+	return ""
+}
+
+func emitPASwitchState(e *emitter, p *pkg) {
+	e.comment("pa/switch_server_conn.go: what the public object keeps of a detection (conn, detect)")
+	// 1. conn(): [optional early return of the installed stack] ; detect() with its error returned ; return the stack.
+	//    Nothing else: in particular no test of any other state in front of the detect call.
+	shape := false
+	if fd := p.funcs[paSwitch+".conn"]; fd != nil && fd.Body != nil {
+		st := fd.Body.List
+		i := 0
+		isWrappedRet := func(s ast.Stmt) bool {
+			is, ok := s.(*ast.IfStmt)
+			if !ok || is.Else != nil || len(is.Body.List) != 1 {
+				return false
+			}
+			x := "c.wrapped"
+			if is.Init != nil {
+				if x = paWrappedLocal(p, is.Init); x == "" {
+					return false
+				}
+			}
+			if p.src(is.Cond) != x+" != nil" {
+				return false
+			}
+			rs, ok := is.Body.List[0].(*ast.ReturnStmt)
+			return ok && len(rs.Results) == 2 && p.src(rs.Results[0]) == x && p.src(rs.Results[1]) == "nil"
+		}
+		isErrRet := func(s ast.Stmt) bool {
+			is, ok := s.(*ast.IfStmt)
+			if !ok || is.Else != nil || len(is.Body.List) != 1 || p.src(is.Cond) != "err != nil" {
+				return false
+			}
+			rs, ok := is.Body.List[0].(*ast.ReturnStmt)
+			return ok && len(rs.Results) == 2 && p.src(rs.Results[0]) == "nil" && p.src(rs.Results[1]) == "err"
+		}
+		isDetectInit := func(s ast.Stmt) bool {
+			as, ok := s.(*ast.AssignStmt)
+			return ok && len(as.Lhs) == 1 && len(as.Rhs) == 1 && p.src(as.Lhs[0]) == "err" && p.src(as.Rhs[0]) == "c.detect()"
+		}
+		if i < len(st) && isWrappedRet(st[i]) {
+			i++
+		}
+		detectOK := false
+		if i < len(st) {
+			if is, ok := st[i].(*ast.IfStmt); ok && is.Init != nil && isDetectInit(is.Init) && isErrRet(&ast.IfStmt{Cond: is.Cond, Body: is.Body}) {
+				detectOK = true
+				i++
+			} else if i+1 < len(st) && isDetectInit(st[i]) && isErrRet(st[i+1]) {
+				detectOK = true
+				i += 2
+			}
+		}
+		if detectOK && i == len(st)-1 {
+			if rs, ok := st[i].(*ast.ReturnStmt); ok && len(rs.Results) == 2 && p.src(rs.Results[1]) == "nil" {
+				r := p.src(rs.Results[0])
+				shape = r == "c.protected()" || r == "c.wrapped" || r == "c.ProtectedConn()"
+			}
+		}
+	}
+	e.boolean("connDetectsWheneverUnwrapped", shape)
+	// Read / Write: `wrapped, err := c.conn(); if err != nil { return 0, err }; return wrapped.<same>(b)`
+	var viaConn []string
+	for _, m := range []string{"Read", "Write"} {
+		fd := p.funcs[paSwitch+"."+m]
+		if fd == nil || fd.Body == nil || len(fd.Body.List) != 3 {
+			continue
+		}
+		as, ok1 := fd.Body.List[0].(*ast.AssignStmt)
+		is, ok2 := fd.Body.List[1].(*ast.IfStmt)
+		rs, ok3 := fd.Body.List[2].(*ast.ReturnStmt)
+		if !ok1 || !ok2 || !ok3 || len(as.Lhs) != 2 || len(as.Rhs) != 1 || p.src(as.Rhs[0]) != "c.conn()" || p.src(as.Lhs[1]) != "err" {
+			continue
+		}
+		w := p.src(as.Lhs[0])
+		if p.src(is.Cond) != "err != nil" || is.Else != nil || len(is.Body.List) != 1 || p.src(is.Body.List[0]) != "return 0, err" {
+			continue
+		}
+		if len(rs.Results) == 1 && p.src(rs.Results[0]) == w+"."+m+"(b)" {
+			viaConn = append(viaConn, m)
+		}
+	}
+	e.strList("callsViaConn", viaConn)
+	// 2. fields of the object written on the way (any declared method, closures included) besides `wrapped`:
+	//    assignments, ++/--, address taken, or a method call on a field held BY VALUE (sync.Once.Do, atomic.X.Store)
+	//    other than the mutex operations.
+	names, ftypes := paStructFields(p, paSwitch)
+	isField := map[string]bool{}
+	for _, n := range names {
+		isField[n] = true
+	}
+	kept := map[string]bool{}
+	fieldOf := func(x ast.Expr) string {
+		se, ok := x.(*ast.SelectorExpr)
+		if !ok {
+			return ""
+		}
+		if id, ok := se.X.(*ast.Ident); ok && id.Name == "c" && isField[se.Sel.Name] {
+			return se.Sel.Name
+		}
+		return ""
+	}
+	assignsWrapped, assignsFromDispatch := 0, 0
+	for _, key := range paSwitchMethods(p) {
+		fd := p.funcs[key]
+		ast.Inspect(fd.Body, func(n ast.Node) bool {
+			switch s := n.(type) {
+			case *ast.AssignStmt:
+				for _, l := range s.Lhs {
+					if f := fieldOf(l); f != "" {
+						if f == "wrapped" {
+							assignsWrapped++
+						} else {
+							kept[f] = true
+						}
+					}
+				}
+			case *ast.IncDecStmt:
+				if f := fieldOf(s.X); f != "" {
+					kept[f] = true
+				}
+			case *ast.UnaryExpr:
+				if s.Op == token.AND {
+					if f := fieldOf(s.X); f != "" {
+						kept[f] = true
+					}
+				}
+			case *ast.CallExpr:
+				if se, ok := s.Fun.(*ast.SelectorExpr); ok {
+					if f := fieldOf(se.X); f != "" {
+						t := ftypes[f]
+						byValue := !strings.HasPrefix(t, "*") && t != "net.Conn" && (strings.HasPrefix(t, "sync.") || strings.HasPrefix(t, "atomic."))
+						switch se.Sel.Name {
+						case "Lock", "Unlock", "RLock", "RUnlock", "TryLock":
+						default:
+							if byValue {
+								kept[f] = true
+							}
+						}
+					}
+				}
+			}
+			return true
+		})
+	}
+	var keptL []string
+	for _, n := range names {
+		if kept[n] {
+			keptL = append(keptL, n)
+		}
+	}
+	e.strList("failureKeptFields", keptL)
+	// 3. `wrapped` is assigned by the constructor rows of detect's switch and nowhere else
+	if fd := p.funcs[paSwitch+".detect"]; fd != nil && fd.Body != nil {
+		for _, st := range fd.Body.List {
+			sw, ok := st.(*ast.SwitchStmt)
+			if !ok {
+				continue
+			}
+			for _, cc := range sw.Body.List {
+				cl := cc.(*ast.CaseClause)
+				if cl.List == nil {
+					continue
+				}
+				for _, b := range cl.Body {
+					if as, ok := b.(*ast.AssignStmt); ok && len(as.Lhs) == 1 && p.src(as.Lhs[0]) == "c.wrapped" && len(as.Rhs) == 1 {
+						if ce, ok := as.Rhs[0].(*ast.CallExpr); ok {
+							if f := p.src(ce.Fun); f == "tlcp.Server" || f == "tls.Server" {
+								assignsFromDispatch++
+							}
+						}
+					}
+				}
+			}
+		}
+	}
+	e.boolean("wrappedOnlyFromDispatch", assignsWrapped > 0 && assignsWrapped == assignsFromDispatch)
+}
+
+// ---------------------------------------------------------------------------
+// lock programs of the public object, with the transport events of the header peek
+//
+// events (kind, mutex): 0 acquire, 1 release (a deferred release at function exit), 2 transport write,
+// 8 transport close, 9 transport read (may park the goroutine), 12 call into the selected stack
+// (wrapped.Read / Write / Close / ...), 13 transport deadline.  Same numbering as facts_locks.go.
+// Flow-insensitive: statements in source order, both arms of every conditional, loop bodies once,
+// callees of the package inline (receiver `c`, field `c.p`), closures at the place they are passed.
+
+type paWalker struct {
+	p      *pkg
+	locks  []string
+	lockIx map[string]int
+	ftypes map[string]map[string]string // struct -> field -> type text
+}
+
+func (w *paWalker) lockOf(name string) int {
+	if i, ok := w.lockIx[name]; ok {
+		return i
+	}
+	w.lockIx[name] = len(w.locks)
+	w.locks = append(w.locks, name)
+	return len(w.locks) - 1
+}
+
+// recvType: the package struct an expression denotes (`c` = the method's receiver type, `c.f` by field type)
+func (w *paWalker) recvType(x ast.Expr, self string) string {
+	switch t := x.(type) {
+	case *ast.Ident:
+		if t.Name == "c" {
+			return self
+		}
+	case *ast.SelectorExpr:
+		if o := w.recvType(t.X, self); o != "" {
+			ft := strings.TrimPrefix(w.ftypes[o][t.Sel.Name], "*")
+			if _, ok := w.p.types[ft]; ok {
+				return ft
+			}
+		}
+	case *ast.ParenExpr:
+		return w.recvType(t.X, self)
+	}
+	return ""
+}
+
+// isRaw: the expression is the raw transport (`c.Conn` of either struct, `c.p.Conn`, `c.Raw()`)
+func (w *paWalker) isRaw(x ast.Expr, self string) bool {
+	if se, ok := x.(*ast.SelectorExpr); ok && se.Sel.Name == "Conn" {
+		if o := w.recvType(se.X, self); o != "" && w.ftypes[o]["Conn"] == "net.Conn" {
+			return true
+		}
+	}
+	if ce, ok := x.(*ast.CallExpr); ok {
+		if se, ok := ce.Fun.(*ast.SelectorExpr); ok && se.Sel.Name == "Raw" && w.recvType(se.X, self) != "" {
+			return true
+		}
+	}
+	return false
+}
+
+var paConnMethod = map[string]int{"Read": 9, "Write": 2, "Close": 8, "SetDeadline": 13, "SetReadDeadline": 13, "SetWriteDeadline": 13}
+
+func (w *paWalker) walkFunc(key string, stack []string, out *[][2]int) {
+	fd := w.p.funcs[key]
+	if fd == nil || fd.Body == nil {
+		return
+	}
+	for _, s := range stack {
+		if s == key {
+			return
+		}
+	}
+	self := key[:strings.Index(key, ".")]
+	var deferred [][][2]int
+	w.walkNode(fd.Body, self, append(stack, key), out, &deferred)
+	for i := len(deferred) - 1; i >= 0; i-- {
+		*out = append(*out, deferred[i]...)
+	}
+}
+
+func (w *paWalker) walkNode(n ast.Node, self string, stack []string, out *[][2]int, deferred *[][][2]int) {
+	if n == nil {
+		return
+	}
+	switch s := n.(type) {
+	case *ast.GoStmt:
+		return
+	case *ast.DeferStmt:
+		var evs [][2]int
+		w.walkCall(s.Call, self, stack, &evs, deferred)
+		*deferred = append(*deferred, evs)
+		return
+	case *ast.FuncLit:
+		// a closure runs where it is passed (sync.Once.Do, a helper taking a callback)
+		var inner [][][2]int
+		w.walkNode(s.Body, self, stack, out, &inner)
+		for i := len(inner) - 1; i >= 0; i-- {
+			*out = append(*out, inner[i]...)
+		}
+		return
+	case *ast.CallExpr:
+		w.walkCall(s, self, stack, out, deferred)
+		return
+	}
+	// generic: children in source order
+	ast.Inspect(n, func(c ast.Node) bool {
+		if c == nil || c == n {
+			return true
+		}
+		w.walkNode(c, self, stack, out, deferred)
+		return false
+	})
+}
+
+func (w *paWalker) walkCall(ce *ast.CallExpr, self string, stack []string, out *[][2]int, deferred *[][][2]int) {
+	// arguments (and the receiver expression) first
+	if se, ok := ce.Fun.(*ast.SelectorExpr); ok {
+		w.walkNode(se.X, self, stack, out, deferred)
+	} else if fl, ok := ce.Fun.(*ast.FuncLit); ok {
+		w.walkNode(fl, self, stack, out, deferred)
+	}
+	for _, a := range ce.Args {
+		w.walkNode(a, self, stack, out, deferred)
+	}
+	fun := w.p.src(ce.Fun)
+	if (fun == "io.ReadFull" || fun == "io.ReadAtLeast" || fun == "io.Copy" || fun == "io.ReadAll") && len(ce.Args) >= 1 {
+		for _, a := range ce.Args {
+			if w.isRaw(a, self) {
+				*out = append(*out, [2]int{9, 0})
+				return
+			}
+		}
+		return
+	}
+	se, ok := ce.Fun.(*ast.SelectorExpr)
+	if !ok {
+		if id, ok := ce.Fun.(*ast.Ident); ok {
+			if _, isFn := w.p.funcs[id.Name]; isFn {
+				w.walkFunc(id.Name, stack, out)
+			}
+		}
+		return
+	}
+	m := se.Sel.Name
+	switch m {
+	case "Lock", "RLock", "Unlock", "RUnlock":
+		if o := w.recvType(selX(se.X), self); o != "" {
+			if fse, ok := se.X.(*ast.SelectorExpr); ok {
+				t := w.ftypes[o][fse.Sel.Name]
+				if strings.HasSuffix(t, "sync.Mutex") || strings.HasSuffix(t, "sync.RWMutex") {
+					l := w.lockOf(o + "." + fse.Sel.Name)
+					if m == "Lock" || m == "RLock" {
+						*out = append(*out, [2]int{0, l})
+					} else {
+						*out = append(*out, [2]int{1, l})
+					}
+					return
+				}
+			}
+		}
+	}
+	if w.isRaw(se.X, self) {
+		if k, ok := paConnMethod[m]; ok {
+			*out = append(*out, [2]int{k, 0})
+		}
+		return
+	}
+	if o := w.recvType(se.X, self); o != "" {
+		if _, isM := w.p.funcs[o+"."+m]; isM {
+			w.walkFunc(o+"."+m, stack, out)
+			return
+		}
+		// promoted from the embedded raw connection
+		if w.ftypes[o]["Conn"] == "net.Conn" {
+			if k, ok := paConnMethod[m]; ok {
+				*out = append(*out, [2]int{k, 0})
+			}
+		}
+		return
+	}
+	// anything else with the name of a net.Conn method: the selected stack (c.wrapped, a local holding it)
+	if _, ok := paConnMethod[m]; ok || m == "Handshake" || m == "HandshakeContext" || m == "CloseWrite" {
+		*out = append(*out, [2]int{12, 0})
+	}
+}
+
+// selX: the object of `obj.field` in `obj.field.Lock()`
+func selX(x ast.Expr) ast.Expr {
+	if se, ok := x.(*ast.SelectorExpr); ok {
+		return se.X
+	}
+	return x
+}
+
+func paLeanProg(evs [][2]int) string {
+	ss := make([]string, len(evs))
+	for i, ev := range evs {
+		ss[i] = fmt.Sprintf("(%d, %d)", ev[0], ev[1])
+	}
+	return "[" + strings.Join(ss, ", ") + "]"
+}
+
+func emitPASwitchLocks(e *emitter, p *pkg) {
+	e.comment("pa: lock programs of the public object with transport events: 0 acquire 1 release 2 transport-write 8 transport-close 9 transport-read 12 call-into-selected-stack 13 transport-deadline")
+	w := &paWalker{p: p, lockIx: map[string]int{}, ftypes: map[string]map[string]string{}}
+	for name := range p.types {
+		_, ft := paStructFields(p, name)
+		w.ftypes[name] = ft
+	}
+	w.lockOf(paSwitch + ".lock")
+	type prog struct {
+		Name   string
+		Events [][2]int
+	}
+	var progs []prog
+	var lean []string
+	declared := map[string]bool{}
+	for _, key := range paSwitchMethods(p) {
+		var evs [][2]int
+		w.walkFunc(key, nil, &evs)
+		name := key[len(paSwitch)+1:]
+		declared[name] = true
+		progs = append(progs, prog{name, evs})
+		lean = append(lean, fmt.Sprintf("(%s, %s)", strconv.Quote(name), paLeanProg(evs)))
+	}
+	// the object embeds the raw connection it was built on: undeclared net.Conn methods go straight to the transport
+	embeds := false
+	if w.ftypes[paSwitch]["Conn"] == "net.Conn" {
+		if fd := p.funcs["New"+paSwitch]; fd != nil && fd.Body != nil && fd.Type.Params != nil && len(fd.Type.Params.List) == 2 &&
+			len(fd.Type.Params.List[1].Names) == 1 {
+			raw := fd.Type.Params.List[1].Names[0].Name
+			okSw, okPd := false, false
+			ast.Inspect(fd.Body, func(n ast.Node) bool {
+				cl, ok := n.(*ast.CompositeLit)
+				if !ok {
+					return true
+				}
+				for _, el := range cl.Elts {
+					if kv, ok := el.(*ast.KeyValueExpr); ok && p.src(kv.Key) == "Conn" && p.src(kv.Value) == raw {
+						switch p.src(cl.Type) {
+						case paSwitch:
+							okSw = true
+						case "ProtocolDetectConn":
+							okPd = true
+						}
+					}
+				}
+				return true
+			})
+			embeds = okSw && okPd
+		}
+	}
+	e.boolean("swEmbedsRawConn", embeds)
+	e.strList("swLockNames", w.locks)
+	e.raw("swProgs", "List (String × List (Nat × Nat))", "[\n  "+strings.Join(lean, ",\n  ")+"]", progs)
+	var ub []prog
+	var ubLean []string
+	for _, name := range []string{"Close", "SetDeadline", "SetReadDeadline", "SetWriteDeadline"} {
+		var evs [][2]int
+		if declared[name] {
+			w.walkFunc(paSwitch+"."+name, nil, &evs)
+		} else if embeds {
+			evs = [][2]int{{paConnMethod[name], 0}}
+		} else {
+			e.missing = append(e.missing, e.key("swUnblockers."+name))
+		}
+		ub = append(ub, prog{name, evs})
+		ubLean = append(ubLean, fmt.Sprintf("(%s, %s)", strconv.Quote(name), paLeanProg(evs)))
+	}
+	e.comment("the calls that get a parked goroutine back (declared, or promoted from the embedded raw connection)")
+	e.raw("swUnblockers", "List (String × List (Nat × Nat))", "[\n  "+strings.Join(ubLean, ",\n  ")+"]", ub)
 }
